@@ -18,8 +18,8 @@ Local Notation P := ZParr.
 Local Notation D := dflt_opts.
 """
 TARGETS = ["Bridge/BridgeClean.vo", "Props/P_C04.vo"]
-FUNCS = {"align_shape": "zalign_shapes D", "align_indeterminants": "zalign_indets",
-         "align_exponents": "zalign_expons", "align_polynomials": "zalign_polys D"}
+FUNCS = {"align_shape": "zalign_shapes {o}", "align_indeterminants": "zalign_indets",
+         "align_exponents": "zalign_expons", "align_polynomials": "zalign_polys {o}"}
 
 
 def lay_coq(lay):
@@ -81,24 +81,28 @@ def run(report, tier, seed):
             lays_in = [core.as_layout(x) for x in ops]
         except ValueError:
             continue
+        # a third of the calls under non-default retain options: alignment must not depend on them
+        g_rc, g_rn = (False, True) if rng.random() < 0.67 else (rng.random() < 0.5, rng.random() < 0.5)
+        model_fn = FUNCS[fname].replace("{o}", f"(Opts {core.cbool(g_rc)} {core.cbool(g_rn)} true false)")
         try:
-            res = getattr(numpoly, fname)(*ops)
+            with numpoly.global_options(retain_coefficients=g_rc, retain_names=g_rn):
+                res = getattr(numpoly, fname)(*ops)
             err = None
         except Exception as exc:  # noqa: BLE001
             res, err = None, exc
         after = [snapshot(x) for x in ops]
-        rep = {"function": fname, "operands": desc, "layouts": lays_in}
+        rep = {"function": fname, "operands": desc, "layouts": lays_in, "retain_coefficients": g_rc, "retain_names": g_rn}
         if before != after:
             viol.append(("modified", f"{fname} modified its argument(s): {desc}", rep))
         tin = core.cseq(core.coq_parr(l) for l in lays_in)
         if err is not None:
-            cc.add(f"chk_layouts ({FUNCS[fname]} {tin}) [:: LErr {core.err_enum(err)}]", rep)
+            cc.add(f"chk_layouts ({model_fn} {tin}) [:: LErr {core.err_enum(err)}]", rep)
             continue
         if len(res) != len(ops):
             viol.append(("arity", f"{fname} returned {len(res)} results for {len(ops)} arguments", rep))
             continue
         lays = [core.poly_layout(r) for r in res]
-        cc.add(f"chk_layouts ({FUNCS[fname]} {tin}) {core.cseq(lay_coq(l) for l in lays)}", rep)
+        cc.add(f"chk_layouts ({model_fn} {tin}) {core.cseq(lay_coq(l) for l in lays)}", rep)
         # ---- the property itself, on the implementation's objects -----------------------------
         shapes = [numpy.shape(x) if not isinstance(x, numpoly.ndpoly) else x.shape for x in ops]
         common = numpy.broadcast_shapes(*shapes) if fname in ("align_shape", "align_polynomials") else None
@@ -114,8 +118,19 @@ def run(report, tier, seed):
             viol.append(("shape", f"{fname}: results do not share the broadcast shape {common}: {desc}", rep))
         if fname in ("align_indeterminants", "align_exponents", "align_polynomials"):
             union = sorted({core.name_index(nm) for x in ops if isinstance(x, numpoly.ndpoly) for nm in x.names} | ({0} if any(not isinstance(x, numpoly.ndpoly) for x in ops) else set()))
+            used = sorted({core.name_index(nm) for x in ops if isinstance(x, numpoly.ndpoly)
+                           for row, coef in zip(x.exponents.tolist(), x.coefficients) if numpy.any(coef)
+                           for nm, e in zip(x.names, row) if e})
             for r in res:
-                if [core.name_index(nm) for nm in r.names] != union:
+                got_names = [core.name_index(nm) for nm in r.names]
+                if g_rn or fname != "align_polynomials":
+                    good = got_names == union
+                else:
+                    # retain_names=False: align_polynomials re-cleans while aligning the shapes, which is allowed to drop
+                    # names no operand uses; the results must still share one tuple, in index order, with every used name
+                    good = (got_names == [core.name_index(nm) for nm in res[0].names] and got_names == sorted(got_names)
+                            and set(used) <= set(got_names) <= set(union))
+                if not good:
                     viol.append(("names", f"{fname}: names {r.names} are not the union {union} in index order: {desc}", rep))
                     break
         if fname in ("align_exponents", "align_polynomials"):
@@ -125,7 +140,8 @@ def run(report, tier, seed):
                 nontrivial.add(json.dumps([fname, lays_in], default=str))
         # idempotence
         try:
-            res2 = getattr(numpoly, fname)(*res)
+            with numpoly.global_options(retain_coefficients=g_rc, retain_names=g_rn):
+                res2 = getattr(numpoly, fname)(*res)
             for a, b in zip(res, res2):
                 if core.poly_layout(a) != core.poly_layout(b):
                     viol.append(("idempotent", f"{fname} applied to its own output changes it: {desc}", rep))
